@@ -792,3 +792,74 @@ Proof.
   intros T HT. pose proof (chunk_windows_exact 1 T HT) as X. rewrite Nat.mul_1_l in X. rewrite X. cbn.
   rewrite Nat.add_0_r. reflexivity.
 Qed.
+
+(** * Merge of several blocks
+    every constraint of each merged block applies within the repetitions of that block; under
+    POST_PREAMBLE the repetitions of a block with a shorter preamble start later ([merge_off]) *)
+Definition merge_off (bd inner : blockdoc) : nat :=
+  match b_alignment bd with PostPreamble => maxp_of bd - b_P inner | _ => 0 end.
+
+Lemma merge_alignment : forall inners cs mode al nest bd, merge inners cs mode al nest = Ok bd -> b_alignment bd = al.
+Proof.
+  intros inners cs mode al nest bd H. unfold merge in H. destruct (_ && _); [discriminate|]. inv_bind H as bd0 Hf H.
+  apply finish_T_eq in Hf. cbn in Hf. inversion H; subst; cbn. apply Hf.
+Qed.
+
+Lemma inherit_rep_off : forall bd T inner off kss,
+  Forall2 (fun csc ks => forall k, In k ks -> scoped bd T (fun base => base) (fun s => s) csc k) (inherit inner off) kss ->
+  Forall2 (fun csc ks => forall k : dconstraint, In k ks ->
+             b_P inner < b_T inner /\
+             scoped bd (b_T inner) (fun base => rep_closed base (b_T inner - b_P inner) T (b_P inner) off) (fun s => s) csc k)
+          (b_constraints inner) kss.
+Proof.
+  intros bd T inner off kss H. unfold inherit in H. apply Forall2_map_l in H.
+  eapply Forall2_imp; [|exact H]. cbn beta. intros csc ks Hks k Hin.
+  destruct (Hks k Hin) as [ws [scale [W1 [W2 W3]]]]. cbn [fst snd] in *.
+  apply scope_windows_rep_inv in W1. destruct W1 as [base [B1 [B2 B3]]]. split; [exact B2|].
+  exists base, scale. split; [exact B1|]. split; [exact W2|]. rewrite W3, B3. reflexivity.
+Qed.
+
+Lemma Forall2_flat_map_l : forall {A B C} (R : B -> C -> Prop) (g : A -> list B) l kss,
+  Forall2 R (flat_map g l) kss ->
+  exists ksss, kss = List.concat ksss /\ Forall2 (fun x ks' => Forall2 R (g x) ks') l ksss.
+Proof.
+  intros A B C R g l. induction l as [|x l IH]; intros kss H; cbn [flat_map] in H.
+  - inversion H; subst. exists []. split; [reflexivity|constructor].
+  - apply Forall2_app_inv_l in H. destruct H as [k1 [k2 [H1 [H2 ->]]]]. destruct (IH k2 H2) as [ksss [-> F]].
+    exists (k1 :: ksss). split; [reflexivity|]. constructor; assumption.
+Qed.
+
+Theorem merge_scope : forall p bs cs mode al ds,
+  doc_sem_block p (PMerge bs cs mode al) = Ok ds ->
+  exists inners ksss kss_c,
+    Forall2 (fun b bd => doc_block p b = Ok bd) bs inners /\
+    s_constraints (ds_sem ds) = List.concat (List.concat ksss) ++ List.concat kss_c ++ marker ds /\
+    Forall2 (fun inner kss =>
+               Forall2 (fun csc ks => forall k : dconstraint, In k ks ->
+                          b_P inner < b_T inner /\
+                          scoped (ds_block ds) (b_T inner)
+                                 (fun base => rep_closed base (b_T inner - b_P inner) (ds_T ds) (b_P inner)
+                                                         (merge_off (ds_block ds) inner))
+                                 (fun s => s) csc k)
+                       (b_constraints inner) kss)
+            inners ksss /\
+    Forall2 (fun c ks => forall k : dconstraint, In k ks -> global_scope (ds_block ds) (ds_T ds) c k)
+            (filter (fun c => negb (is_min_trials c)) cs) kss_c.
+Proof.
+  intros p bs cs mode al ds H. unfold doc_sem_block in H. inv_bind H as bd Hbd H.
+  cbn [doc_block] in Hbd. inv_bind Hbd as inners Hi Hbd. inv_bind Hbd as al' Hal Hbd. apply go_ok in Hi.
+  pose proof (merge_constraints _ _ _ _ _ _ Hbd) as Hcs. pose proof (merge_alignment _ _ _ _ _ _ Hbd) as Ha.
+  pose proof (sem_of_block_block _ _ _ H) as Hb.
+  assert (HT : ds_T ds = b_T bd).
+  { unfold sem_of_block in H. inv_bind H as kinds Hk H. destruct (negb _); [discriminate|].
+    inv_bind H as depths Hd H. inv_bind H as factors Hf H. inv_bind H as crossings Hx H. inv_bind H as constraints Hc H.
+    inversion H; reflexivity. }
+  destruct (sem_of_block_constraints _ _ _ H) as [kss [E F]]. rewrite Hcs in F.
+  apply Forall2_app_inv_l in F. destruct F as [kss_b [kss_c [Fb [Fc ->]]]].
+  apply Forall2_flat_map_l in Fb. destruct Fb as [ksss [-> Fb]].
+  exists inners, ksss, kss_c. rewrite Hb, HT. split; [exact Hi|].
+  split; [rewrite E, concat_app, <- app_assoc; reflexivity|].
+  split; [|apply own_global; exact Fc].
+  eapply Forall2_imp; [|exact Fb]. cbn beta. intros inner kss Hk. apply inherit_rep_off.
+  unfold merge_off. rewrite Ha. exact Hk.
+Qed.
